@@ -270,9 +270,9 @@ convert(struct func *f, struct type *dst, struct type *src, struct value *l)
 	struct value *r = NULL;
 	int class;
 
-	if (src->kind == TYPEPOINTER)
+	if (src->kind == TYPEPOINTER || src->kind == TYPENULLPTR)
 		src = &typeulong;
-	if (dst->kind == TYPEPOINTER)
+	if (dst->kind == TYPEPOINTER || dst->kind == TYPENULLPTR)
 		dst = &typeulong;
 	if (dst->kind == TYPEVOID)
 		return NULL;
@@ -744,7 +744,7 @@ funcexpr(struct func *f, struct expr *e)
 		break;
 	case EXPRCONST:
 		t = e->type;
-		if (t->prop & PROPINT || t->kind == TYPEPOINTER)
+		if (t->prop & PROPINT || t->kind == TYPEPOINTER || t->kind == TYPENULLPTR)
 			return mkintconst(e->u.constant.u);
 		assert(t->prop & PROPFLOAT);
 		return mkfltconst(t->size == 4 ? VALUE_FLTCONST : VALUE_DBLCONST, e->u.constant.f);
